@@ -51,9 +51,10 @@ Cls(r, i, j, salt) == 1 + ((i + 2 * j + salt) % r.nclass)
 \* the classification word of group l for channel j: digits most significant first
 ClassWord(r, dimG, l, j, pv, salt) ==
   1 + SumSeq([k \in 1..dimG |-> (IF l * dimG + (k - 1) < pv THEN Cls(r, l * dimG + (k - 1), j, salt) - 1 ELSE 0) * IPow(r.nclass, dimG - k)])
-ResidueBits(s, r, halfblock, nch, salt) ==
+\* nch = channels of the submap (the interleave width of residue 2); chans = vectors that are actually read: for residue 0 / 1 the channels of the
+\* submap that are to be decoded, in order; for residue 2 one (the interleave) if any channel is to be decoded, none otherwise
+ResidueBits(s, r, halfblock, nch, chans, salt) ==
   LET dimG == s.books[r.gbook + 1].dim
-      chans == IF r.type = 2 THEN 1 ELSE nch
       pv == PartVals(r, halfblock, nch)
       groups == (pv + dimG - 1) \div dimG
   IN Cat([st1 \in 1..Stages(r) |->
@@ -71,14 +72,77 @@ ResidueBits(s, r, halfblock, nch, salt) ==
                   ELSE <<>>])
            ELSE <<>>])])])
 
-\* a whole packet in which every channel uses its floor and the residue is decoded; one submap only (the generator's shapes), mapping 0
-FullPacket(s, mode, lw, nw, salt) ==
+(* ---- residue VALUES (spec 3.2.1 VQ lookup, 8.6.2-8.6.5 partition decode, 4.3.5 inverse coupling), on the integers the generated books hold ---- *)
+\* the vector of entry e (1-based) of a value book: lattice (lookup type 1) or explicit (type 2), with or without sequence mode
+RECURSIVE VQ(_, _, _, _, _, _, _)
+VQ(b, lo, i, last, div, lv, lim) ==
+  IF i > b.dim \/ i > lim THEN <<>>
+  ELSE LET m == IF b.maptype = 1 THEN b.quant[((lo \div div) % lv) + 1] ELSE b.quant[lo * b.dim + i]
+           v == m * Unpacked(b.qdelta) + Unpacked(b.qmin) + last
+       IN <<v>> \o VQ(b, lo, i + 1, IF b.qseq = 1 THEN v ELSE 0, IF div > lo THEN div ELSE div * lv, lv, lim)
+\* (only the first lim components: a partition never uses more than its own size)
+BookVec(b, e, lim) == VQ(b, e - 1, 1, 0, 1, IF b.maptype = 1 THEN QuantVals1(b.entries, b.dim) ELSE 1, lim)
+\* what stage st adds to partition p of channel j (0-based; residue 2: j = 0 and the vector is the interleave of all channels): psize values
+StageVec(s, r, salt, j, p, st) ==
+  LET c == Cls(r, p, j, salt) IN
+  IF ~HasStage(r, c, st) THEN [x \in 1..r.psize |-> 0]
+  ELSE LET bk == StageBook(r, c, st)  b == s.books[bk + 1]  d == b.dim IN
+       IF r.type = 0
+       THEN LET step == r.psize \div d                                               \* format 0: whole vectors only, component k of vector i at i + k * step
+                vecs == [i \in 1..step |-> BookVec(b, Pick(s, bk, salt + 5 * p + 11 * j + 13 * i + st), r.psize)]
+            IN [x \in 1..r.psize |-> IF step = 0 \/ x - 1 >= step * d THEN 0 ELSE vecs[((x - 1) % step) + 1][((x - 1) \div step) + 1]]
+       ELSE LET nvec == (r.psize + d - 1) \div d                                      \* format 1: consecutive, the last vector cut at the partition end
+                vecs == [v \in 1..nvec |-> BookVec(b, Pick(s, bk, salt + 5 * p + 11 * j + 13 * v + st), r.psize)]
+            IN [x \in 1..r.psize |-> vecs[((x - 1) \div d) + 1][((x - 1) % d) + 1]]
+RECURSIVE AddStages(_, _, _, _, _, _)
+AddStages(s, r, salt, j, p, st) == IF st < 0 THEN [x \in 1..r.psize |-> 0]
+                                   ELSE LET a == AddStages(s, r, salt, j, p, st - 1)  v == StageVec(s, r, salt, j, p, st) IN [x \in 1..r.psize |-> a[x] + v[x]]
+\* the whole vector of channel j, n values: zeros before begin, the partitions, zeros behind
+ResVector(s, r, salt, j, pv, n) ==
+  LET parts == [p1 \in 1..pv |-> AddStages(s, r, salt, j, p1 - 1, Stages(r) - 1)] IN
+  [y1 \in 1..n |-> LET y == y1 - 1 IN IF y < r.begin \/ y >= r.begin + pv * r.psize THEN 0 ELSE parts[((y - r.begin) \div r.psize) + 1][((y - r.begin) % r.psize) + 1]]
+\* dec[b] = channel b of the submap is to be decoded; residue 0 / 1 number the decoded channels 0, 1, ... in order
+ResidueVals(s, r, half, nch, dec, salt) ==
+  LET pv == PartVals(r, half, nch)
+      zero == [x \in 1..half |-> 0]
+      rank(b) == Cardinality({ a \in 1..(b - 1) : dec[a] }) IN
+  IF r.type = 2 THEN IF \A b \in 1..nch : ~dec[b] THEN [j \in 1..nch |-> zero]
+                     ELSE LET big == ResVector(s, r, salt, 0, pv, half * nch) IN [j \in 1..nch |-> [x \in 1..half |-> big[(x - 1) * nch + j]]]
+  ELSE [j \in 1..nch |-> IF dec[j] THEN ResVector(s, r, salt, rank(j), pv, half) ELSE zero]
+\* inverse coupling, steps in reverse order; cp = sequence of <<magnitude channel, angle channel>> (0-based)
+CoupleBin(m, a) == IF m > 0 THEN (IF a > 0 THEN <<m, m - a>> ELSE <<m + a, m>>) ELSE (IF a > 0 THEN <<m, m + a>> ELSE <<m - a, m>>)
+RECURSIVE Decouple(_, _, _)
+Decouple(vals, cp, i) ==
+  IF i = 0 THEN vals
+  ELSE LET M == cp[i][1] + 1  A == cp[i][2] + 1
+           nv == [j \in 1..Len(vals) |-> [x \in 1..Len(vals[j]) |-> IF j = M THEN CoupleBin(vals[M][x], vals[A][x])[1] ELSE IF j = A THEN CoupleBin(vals[M][x], vals[A][x])[2] ELSE vals[j][x]]]
+       IN Decouple(nv, cp, i - 1)
+
+(* ---- a whole packet: per-channel floor flags, any number of submaps (spec 4.3.2 - 4.3.5; floor 1 only) ---- *)
+SubmapOf(m, c) == IF m.submaps > 1 THEN m.mux[c] ELSE 0                               \* channel c (1-based) -> submap (0-based)
+BundleOf(s, m, sm) == SelectSeq([c \in 1..s.ch |-> c], LAMBDA c : SubmapOf(m, c) = sm)   \* the channels of a submap in order
+\* which channels decode residue: those whose floor is in use, spread over the coupling steps in order ("nonzero vector propagate")
+RECURSIVE Spread(_, _, _)
+Spread(nz, cp, i) == IF i > Len(cp) THEN nz
+                     ELSE LET M == cp[i][1] + 1  A == cp[i][2] + 1 IN Spread(IF nz[M] \/ nz[A] THEN [nz EXCEPT ![M] = TRUE, ![A] = TRUE] ELSE nz, cp, i + 1)
+Decoded(s, m, fl) == Spread([c \in 1..s.ch |-> fl[c] = 1], m.coupling, 1)
+HalfBlock(s, mode) == Pow2(IF s.modes[mode + 1].bf = 1 THEN s.e1 ELSE s.e0) \div 2
+FullPacket(s, mode, lw, nw, salt, fl) ==
   LET m == s.maps[s.modes[mode + 1].map + 1]
-      f == s.floors[m.sfloor[1] + 1]
-      r == s.residues[m.sres[1] + 1]
-      half == Pow2(IF s.modes[mode + 1].bf = 1 THEN s.e1 ELSE s.e0) \div 2
+      half == HalfBlock(s, mode)
+      dec == Decoded(s, m, fl)
   IN << <<0, 1>>, <<mode, ILog(Len(s.modes) - 1)>> >> \o
      (IF s.modes[mode + 1].bf = 1 THEN << <<lw, 1>>, <<nw, 1>> >> ELSE <<>>) \o
-     Cat([c \in 1..s.ch |-> Floor1Bits(s, f, salt + c)]) \o
-     ResidueBits(s, r, half, s.ch, salt)
+     Cat([c \in 1..s.ch |-> IF fl[c] = 1 THEN Floor1Bits(s, s.floors[m.sfloor[SubmapOf(m, c) + 1] + 1], salt + c) ELSE << <<0, 1>> >>]) \o
+     Cat([sm1 \in 1..m.submaps |->
+       LET B == BundleOf(s, m, sm1 - 1)  r == s.residues[m.sres[sm1] + 1]  nd == Cardinality({ b \in 1..Len(B) : dec[B[b]] })
+       IN ResidueBits(s, r, half, Len(B), IF r.type = 2 THEN (IF nd > 0 THEN 1 ELSE 0) ELSE nd, salt + 100 * (sm1 - 1))])
+\* the spectral vectors of all channels after residue decode, and after inverse coupling
+PacketResidue(s, mode, salt, fl) ==
+  LET m == s.maps[s.modes[mode + 1].map + 1]
+      half == HalfBlock(s, mode)
+      dec == Decoded(s, m, fl)
+      per == [sm1 \in 1..m.submaps |-> LET B == BundleOf(s, m, sm1 - 1) IN ResidueVals(s, s.residues[m.sres[sm1] + 1], half, Len(B), [b \in 1..Len(B) |-> dec[B[b]]], salt + 100 * (sm1 - 1))]
+  IN [c \in 1..s.ch |-> LET sm1 == SubmapOf(m, c) + 1  B == BundleOf(s, m, sm1 - 1)  b == CHOOSE k \in 1..Len(B) : B[k] = c IN per[sm1][b]]
+PacketSpectrum(s, mode, salt, fl) == LET m == s.maps[s.modes[mode + 1].map + 1] IN Decouple(PacketResidue(s, mode, salt, fl), m.coupling, Len(m.coupling))
 =============================================================================
